@@ -83,7 +83,7 @@ func gen(g *mon.Gen) {
 					if exc && size > 0 {
 						continue
 					}
-					n := g.Pick(24, 200)
+					n := g.Pick(24, 600)
 					if client == clientx.Serial {
 						n = g.Pick(6, 60)
 					}
